@@ -59,53 +59,53 @@ func runAPI(cases []Case, rep, conc int) {
 		go func() {
 			o := o
 			func() {
-			defer func() {
-				if r := recover(); r != nil {
-					o.Panic = fmt.Sprint(r)
+				defer func() {
+					if r := recover(); r != nil {
+						o.Panic = fmt.Sprint(r)
+					}
+				}()
+				if len(c.Patches) != 1 {
+					o.ParseErr = "api stream uses single-patch cases"
+					return
+				}
+				f, err := patch.Parse("p.patch", []byte(c.Patches[0]))
+				if err != nil {
+					o.ParseErr = err.Error()
+					return
+				}
+				out, e, p := applyOnce(f, "a.go", []byte(c.Src))
+				o.Out, o.Err, o.Panic = out, e, p
+				for i := 0; i < rep; i++ {
+					out2, e2, _ := applyOnce(f, "a.go", []byte(c.Src))
+					if out2 != out || (e2 == "") != (e == "") {
+						o.RepeatSame = false
+					}
+				}
+				if conc > 0 {
+					var wg sync.WaitGroup
+					var mu sync.Mutex
+					for i := 0; i < conc; i++ {
+						wg.Add(1)
+						go func(i int) {
+							defer wg.Done()
+							src := c.Src
+							if i%3 == 2 {
+								// an unrelated file processed concurrently
+								src = "package other\n\nfunc unrelated() { _ = 1 }\n"
+								applyOnce(f, fmt.Sprintf("o%d.go", i), []byte(src))
+								return
+							}
+							out2, e2, _ := applyOnce(f, "a.go", []byte(src))
+							if out2 != out || (e2 == "") != (e == "") {
+								mu.Lock()
+								o.ConcSame = false
+								mu.Unlock()
+							}
+						}(i)
+					}
+					wg.Wait()
 				}
 			}()
-			if len(c.Patches) != 1 {
-				o.ParseErr = "api stream uses single-patch cases"
-				return
-			}
-			f, err := patch.Parse("p.patch", []byte(c.Patches[0]))
-			if err != nil {
-				o.ParseErr = err.Error()
-				return
-			}
-			out, e, p := applyOnce(f, "a.go", []byte(c.Src))
-			o.Out, o.Err, o.Panic = out, e, p
-			for i := 0; i < rep; i++ {
-				out2, e2, _ := applyOnce(f, "a.go", []byte(c.Src))
-				if out2 != out || (e2 == "") != (e == "") {
-					o.RepeatSame = false
-				}
-			}
-			if conc > 0 {
-				var wg sync.WaitGroup
-				var mu sync.Mutex
-				for i := 0; i < conc; i++ {
-					wg.Add(1)
-					go func(i int) {
-						defer wg.Done()
-						src := c.Src
-						if i%3 == 2 {
-							// an unrelated file processed concurrently
-							src = "package other\n\nfunc unrelated() { _ = 1 }\n"
-							applyOnce(f, fmt.Sprintf("o%d.go", i), []byte(src))
-							return
-						}
-						out2, e2, _ := applyOnce(f, "a.go", []byte(src))
-						if out2 != out || (e2 == "") != (e == "") {
-							mu.Lock()
-							o.ConcSame = false
-							mu.Unlock()
-						}
-					}(i)
-				}
-				wg.Wait()
-			}
-		}()
 			done <- o
 		}()
 		select {
